@@ -43,7 +43,7 @@ def run_pool(chk, flavour, cases):
     env = {"TSAN_OPTIONS": "halt_on_error=0 exitcode=0 report_signal_unsafe=0"}
 
     def one(c):
-        out, rc, err = vlib.run_cases(hb, [c], timeout=240, env=env)
+        out, rc, err = vlib.run_case_retry(hb, c, timeout=240, env=env)
         return c, out, rc, err
     with ThreadPoolExecutor(6) as ex:
         res = list(ex.map(one, cases))
@@ -51,6 +51,9 @@ def run_pool(chk, flavour, cases):
     for c, out, rc, err in res:
         shut = int(c.split(" ")[5])
         m = LINE.match(out[0]) if out else None
+        if out and out[0].startswith("HARNESS-ERROR"):
+            chk.broken.append("harness h_pool could not set up its sockets (%s): %s" % (flavour, out[0][:200]))
+            continue
         if not m:
             chk.violation("the thread-pool server crashed or hung: %s rc=%s %s" % (out[:1], rc, err[-300:]),
                           {"case": c, "flavour": flavour, "stderr": err[-3000:]}, True, "pool-crash")
